@@ -44,6 +44,7 @@ type Prog struct {
 		E    Edge
 	}
 	sentinels map[*ssa.Global]int
+	fstores   map[fieldKey][]*ssa.Store
 	refEdges map[*ssa.Function][]*ssa.Function
 	LoadS    float64
 	SSAS     float64
